@@ -268,7 +268,7 @@ def check_dict_caches(ctx, modules, rule_prefix: str) -> int:
                 ctx.ob(fi.where, f"cache `{cname}`: the key names every input the cached value is computed from",
                        not missing,
                        ("value depends on " + ", ".join(".".join(m) for m in missing) + "; key holds " + ", ".join(sorted(".".join(k) for k in kp))) if missing else "",
-                       key=f"{rule_prefix}|{mod}|{fi.qualname}|{cname}", rule=rule_prefix)
+                       key=f"{rule_prefix}|{mod}|{fi.qualname}|{cname}", rule=rule_prefix, definite=True)
     return n_stores
 
 
